@@ -269,6 +269,37 @@ def e2e_one(run, binary, jbin, tmp, fake, idx, filters, pyf, place, src, dest, v
     return found
 
 
+ODD_NAMES = ['a\nb.txt', 'x\n.tmp', 'line\nbreak', 'plain.txt', 'plain.tmp', 'tab\tname.txt', 'cr\rname.tmp', ' lead', 'trail ', 'dollar$', 'ca^ret', 'UPPER.TXT']
+ODD_FILTERS = [['+.*\\.txt'], ['-.*\\.tmp'], ['-a.b\\.txt'], ['+.*', '-.*\\.tmp'], ['-.*', '+.*\\.txt'], ['-line.break'], ['-[^x]*'], ['+.+\\.(txt|tmp)'],
+               ['-(?i).*\\.txt'], ['-.* '], ['- .*']]
+
+
+def e2e_odd_names(run, binary, jbin, tmp, tier, fake, first_idx):
+    """File names containing a line break, tab, carriage return, leading / trailing blanks, regex metacharacters - under
+    filters whose verdict on them depends on what '.', a class or a flag matches - in all four placements: both doers must
+    reach the documented verdict (a remote doer receives the filters over the wire and compiles them itself)."""
+    rng = run.rng
+    found = []
+    n = 12 if tier == 'quick' else 160
+    for i in range(n):
+        filters = ODD_FILTERS[i % len(ODD_FILTERS)] if i < 2 * len(ODD_FILTERS) else rng.choice(ODD_FILTERS)
+        pyf = [(f[0], f[1:]) for f in filters]
+        place = ['RL', 'LR', 'RR', 'LL'][i % 4]
+        src = {'': {'k': 'dir'}}
+        for nm in rng.sample(ODD_NAMES, rng.randrange(3, 8)):
+            src[nm] = {'k': 'file', 'data': ('%r' % nm).encode(), 'mtime_ns': 1_700_000_000_000_000_000}
+        src['sub'] = {'k': 'dir'}
+        for nm in rng.sample(ODD_NAMES, 2):
+            src['sub/' + nm] = {'k': 'file', 'data': b'in sub', 'mtime_ns': 1_700_000_000_000_000_000}
+        dest = None
+        if rng.random() < 0.6:
+            dest = {'': {'k': 'dir'}}
+            for nm in rng.sample(ODD_NAMES, rng.randrange(1, 5)):
+                dest[nm] = {'k': 'file', 'data': b'dest-only or stale', 'mtime_ns': 1_600_000_000_000_000_000}
+        found += e2e_one(run, binary, None, tmp, fake, first_idx + i, filters, pyf, place, src, dest, kind='odd-names')
+    return found
+
+
 def e2e_cases(run, binary, jbin, tmp, tier):
     rng = run.rng
     found = []
@@ -291,6 +322,7 @@ def e2e_cases(run, binary, jbin, tmp, tier):
         dest = FL.derive_dest(rng, src) if mode == 'derived' else None
         found += e2e_one(run, binary, jbin, tmp, fake, i, filters, pyf, place, src, dest, via='spec' if i % 5 == 4 else 'args')
     found += e2e_repeat_cases(run, binary, jbin, tmp, tier, fake, first_idx=n)
+    found += e2e_odd_names(run, binary, jbin, tmp, tier, fake, first_idx=5000)
     return found
 
 
